@@ -17,6 +17,22 @@
    is proved about that path.  Floating-point effects (incl. the clamp of probs_to_logits outside
    [in_range]) are not part of the theorems.
 
+   RANGE OF THE KL / NLL THEOREMS.  Every KL and NLL equality / inequality below is stated for probabilities in
+   [2^-52, 1 - 2^-52] ([in_range]; hypotheses [dists_ok], [sample_ok]); the [..._zero_extended] theorems
+   additionally admit target probabilities that are EXACTLY 0 ([dists_ok0]: basis states, GHZ-like targets),
+   because the clamp gives t * plogit t = 0 at t = 0.  Probabilities in (0, 2^-52) or (1 - 2^-52, 1] — in
+   particular a target or model probability that is exactly 1, or a model probability that is exactly 0 — are
+   EXCLUDED from every theorem (there plogit is not ln: plogit 1 = ln (1 - 2^-52), plogit 0 = ln 2^-52); on such
+   inputs "KL = mean basis KL", "KL >= 0" and "NLL = -mean ln Born" are covered by the numpy oracle of
+   harness/checks/c10.py only (basis-state and GHZ targets are generated there), within 1e-9.
+   "Returns a plain real number on every code path" rests on the check's type test of the real return values
+   (is_plain_number on every call form incl. the deprecated target_psi= / target_rho= keywords);
+   C10_metrics_return_plain_numbers only restates that the model tags every path PlainNumber.
+   Guards: no statement relies on x / 0 = 0, on an empty list of bases / samples, or on the truncating zip of
+   lists of different lengths (hypotheses 0 < Z, bases <> [], samples <> [], length t = length psi).
+   States without a unitary dictionary (PositiveWaveFunction, /repo c22f10c) use create_dict(): in the model the
+   letters X, Y, Z always denote the default matrices (Unitaries.lookup), [user] only carries added ones.
+
    TARGET (not proved): forall target rho Z, density matrices target, rho/Z ->
        fst (fidelity_mixed ROps eigenvalues target rho Z) = uhlmann_fidelity target (rho / Z) /\ 0 <= it <= 1.
    Missing: a formalised spectrum / positive square root of Hermitian matrices. *)
@@ -28,8 +44,8 @@ Open Scope R_scope.
 
 (* ---------------------------------------------------------------- 1. fidelity of wavefunctions *)
 Theorem C10_fidelity_pure_is_overlap : forall t psi Z,
-  0 < Z -> fst (fidelity_pure ROps t psi Z) = cn2 (overlap t psi) / Z.
-Proof. exact fidelity_pure_is_overlap. Qed.
+  length t = length psi -> 0 < Z -> fst (fidelity_pure ROps t psi Z) = cn2 (overlap t psi) / Z.
+Proof. exact fidelity_pure_is_overlap_g. Qed.
 Print Assumptions C10_fidelity_pure_is_overlap.
 
 (* the model's inner product conjugates its FIRST argument *)
@@ -43,9 +59,9 @@ Proof. exact cauchy_schwarz. Qed.
 Print Assumptions C10_cauchy_schwarz.
 
 Theorem C10_fidelity_pure_in_unit_interval : forall t psi Z,
-  sum ROps (map cn2 t) = 1 -> sum ROps (map cn2 psi) = Z -> 0 < Z ->
+  length t = length psi -> sum ROps (map cn2 t) = 1 -> sum ROps (map cn2 psi) = Z -> 0 < Z ->
   0 <= fst (fidelity_pure ROps t psi Z) <= 1.
-Proof. exact fidelity_pure_in_unit_interval. Qed.
+Proof. exact fidelity_pure_in_unit_interval_g. Qed.
 Print Assumptions C10_fidelity_pure_in_unit_interval.
 
 (* ... and the hypotheses on (psi, Z) hold for the tables of real wavefunction states (C01) *)
@@ -68,8 +84,9 @@ Proof. exact fidelity_pure_self. Qed.
 Print Assumptions C10_fidelity_pure_self.
 
 Theorem C10_fidelity_pure_global_phase_invariant : forall theta t psi Z,
+  length t = length psi -> 0 < Z ->
   fidelity_pure ROps (map (cmul ROps (cexp_i ROps theta)) t) psi Z = fidelity_pure ROps t psi Z.
-Proof. exact fidelity_pure_global_phase_invariant. Qed.
+Proof. exact fidelity_pure_global_phase_invariant_g. Qed.
 Print Assumptions C10_fidelity_pure_global_phase_invariant.
 
 (* ---------------------------------------------------------------- 2. KL *)
@@ -83,79 +100,95 @@ Theorem C10_single_basis_KL_is_kl_div : forall t q,
 Proof. exact single_basis_KL_is_kl_div. Qed.
 Print Assumptions C10_single_basis_KL_is_kl_div.
 
+Theorem C10_dists_ok_implies_dists_ok0 : forall T Q, dists_ok T Q -> dists_ok0 T Q.
+Proof. exact dists_ok_weaken. Qed.
+Print Assumptions C10_dists_ok_implies_dists_ok0.
+
+Theorem C10_single_basis_KL_is_kl_div_zero_extended : forall t q,
+  length t = length q -> Forall zero_or_range t -> Forall in_range q ->
+  single_basis_KL ROps t q = kl_div t q.
+Proof. exact single_basis_KL_is_kl_div0. Qed.
+Print Assumptions C10_single_basis_KL_is_kl_div_zero_extended.
+
 Theorem C10_kl_is_mean_of_basis_kl_pure : forall user tgt psi Z bases,
-  (forall b, In b bases -> dists_ok (target_dist_pure tgt b) (model_dist_pure user psi Z b)) ->
+  bases <> [] ->
+  (forall b, In b bases -> dists_ok0 (target_dist_pure tgt b) (model_dist_pure user psi Z b)) ->
   fst (kl_bases_pure ROps user tgt psi Z bases) =
   mean_over (fun b => kl_div (target_dist_pure tgt b) (model_dist_pure user psi Z b)) bases.
-Proof. exact kl_pure_is_mean_of_basis_kl. Qed.
+Proof. exact kl_pure_is_mean_of_basis_kl0. Qed.
 Print Assumptions C10_kl_is_mean_of_basis_kl_pure.
 
 Theorem C10_kl_is_mean_of_basis_kl_mixed : forall user tgt rho Z space bases,
-  (forall b, In b bases -> dists_ok (tgt b) (model_dist_mixed user rho Z space b)) ->
+  bases <> [] ->
+  (forall b, In b bases -> dists_ok0 (tgt b) (model_dist_mixed user rho Z space b)) ->
   fst (kl_bases_mixed ROps user tgt rho Z space bases) =
   mean_over (fun b => kl_div (tgt b) (model_dist_mixed user rho Z space b)) bases.
-Proof. exact kl_mixed_is_mean_of_basis_kl. Qed.
+Proof. exact kl_mixed_is_mean_of_basis_kl0. Qed.
 Print Assumptions C10_kl_is_mean_of_basis_kl_mixed.
 
 Theorem C10_kl_none_is_kl : forall pr Z space,
   (forall target, let T := map cn2 target in let Q := map (fun v => pr v / Z) space in
-     dists_ok T Q -> fst (kl_none_pure ROps target pr Z space) = kl_div T Q) /\
+     dists_ok0 T Q -> fst (kl_none_pure ROps target pr Z space) = kl_div T Q) /\
   (forall target, let T := diag_real ROps target in let Q := map (fun v => pr v / Z) space in
-     dists_ok T Q -> fst (kl_none_mixed ROps target pr Z space) = kl_div T Q).
-Proof. intros pr Z space; split; intros target; [exact (kl_none_pure_is_kl target pr Z space) | exact (kl_none_mixed_is_kl target pr Z space)]. Qed.
+     dists_ok0 T Q -> fst (kl_none_mixed ROps target pr Z space) = kl_div T Q).
+Proof. intros pr Z space; split; intros target; [exact (kl_none_pure_is_kl0 target pr Z space) | exact (kl_none_mixed_is_kl0 target pr Z space)]. Qed.
 Print Assumptions C10_kl_none_is_kl.
 
 (* Gibbs' inequality for arbitrary positive lists of equal length and equal total *)
 Theorem C10_gibbs_inequality : forall t q,
-  length t = length q -> Forall (fun x => 0 < x) t -> Forall (fun x => 0 < x) q ->
+  length t = length q -> Forall (fun x => 0 <= x) t -> Forall (fun x => 0 < x) q ->
   sum ROps t = sum ROps q -> 0 <= kl_div t q.
-Proof. exact kl_div_nonneg. Qed.
+Proof. exact kl_div_nonneg0. Qed.
 Print Assumptions C10_gibbs_inequality.
 
 Theorem C10_kl_nonneg_pure : forall user tgt psi Z bases,
-  (forall b, In b bases -> dists_ok (target_dist_pure tgt b) (model_dist_pure user psi Z b)) ->
+  bases <> [] ->
+  (forall b, In b bases -> dists_ok0 (target_dist_pure tgt b) (model_dist_pure user psi Z b)) ->
   (forall b, In b bases -> sum ROps (target_dist_pure tgt b) = 1 /\ sum ROps (model_dist_pure user psi Z b) = 1) ->
   0 <= fst (kl_bases_pure ROps user tgt psi Z bases).
-Proof. exact kl_pure_nonneg. Qed.
+Proof. exact kl_pure_nonneg0. Qed.
 Print Assumptions C10_kl_nonneg_pure.
 
 Theorem C10_kl_nonneg_mixed : forall user tgt rho Z space bases,
-  (forall b, In b bases -> dists_ok (tgt b) (model_dist_mixed user rho Z space b)) ->
+  bases <> [] ->
+  (forall b, In b bases -> dists_ok0 (tgt b) (model_dist_mixed user rho Z space b)) ->
   (forall b, In b bases -> sum ROps (tgt b) = 1 /\ sum ROps (model_dist_mixed user rho Z space b) = 1) ->
   0 <= fst (kl_bases_mixed ROps user tgt rho Z space bases).
-Proof. exact kl_mixed_nonneg. Qed.
+Proof. exact kl_mixed_nonneg0. Qed.
 Print Assumptions C10_kl_nonneg_mixed.
 
 Theorem C10_kl_nonneg_none : forall pr Z space,
   (forall target, let T := map cn2 target in let Q := map (fun v => pr v / Z) space in
-     dists_ok T Q -> sum ROps T = 1 -> sum ROps Q = 1 -> 0 <= fst (kl_none_pure ROps target pr Z space)) /\
+     dists_ok0 T Q -> sum ROps T = 1 -> sum ROps Q = 1 -> 0 <= fst (kl_none_pure ROps target pr Z space)) /\
   (forall target, let T := diag_real ROps target in let Q := map (fun v => pr v / Z) space in
-     dists_ok T Q -> sum ROps T = 1 -> sum ROps Q = 1 -> 0 <= fst (kl_none_mixed ROps target pr Z space)).
-Proof. intros pr Z space; split; intros target; [exact (kl_none_nonneg_pure target pr Z space) | exact (kl_none_nonneg_mixed target pr Z space)]. Qed.
+     dists_ok0 T Q -> sum ROps T = 1 -> sum ROps Q = 1 -> 0 <= fst (kl_none_mixed ROps target pr Z space)).
+Proof. intros pr Z space; split; intros target; [exact (kl_none_nonneg_pure0 target pr Z space) | exact (kl_none_nonneg_mixed0 target pr Z space)]. Qed.
 Print Assumptions C10_kl_nonneg_none.
 
 (* self-KL = 0 in EVERY list of bases (no range hypothesis needed): the target is the state's own
    normalised vector / matrix, rotated by the code's own rotation *)
 Theorem C10_kl_self_zero_pure : forall user psi Z bases,
-  0 < Z ->
+  bases <> [] -> 0 < Z ->
   fst (kl_bases_pure ROps user (tgt_rotate_psi ROps user (map (rdiv (sqrt Z)) psi)) psi Z bases) = 0.
-Proof. exact kl_pure_self_zero. Qed.
+Proof. exact kl_pure_self_zero_g. Qed.
 Print Assumptions C10_kl_self_zero_pure.
 
 Theorem C10_kl_self_zero_mixed : forall user (rho : bits -> bits -> R * R) Z space bases,
+  bases <> [] -> 0 < Z ->
   fst (kl_bases_mixed ROps user (tgt_rotate_rho ROps user (fun v v' => rdiv Z (rho v v')) space) rho Z space bases) = 0.
-Proof. exact kl_mixed_self_zero. Qed.
+Proof. exact kl_mixed_self_zero_g. Qed.
 Print Assumptions C10_kl_self_zero_mixed.
 
 (* dictionary targets (or any target): equal distributions in every requested basis give 0 *)
 Theorem C10_kl_zero_of_equal_dists : forall user Z bases,
+  bases <> [] ->
   (forall tgt psi, (forall b, In b bases -> target_dist_pure tgt b = model_dist_pure user psi Z b) ->
      fst (kl_bases_pure ROps user tgt psi Z bases) = 0) /\
   (forall tgt rho space, (forall b, In b bases -> tgt b = model_dist_mixed user rho Z space b) ->
      fst (kl_bases_mixed ROps user tgt rho Z space bases) = 0).
 Proof.
-  intros user Z bases; split; [intros tgt psi; exact (kl_pure_zero_of_equal_dists user tgt psi Z bases)
-                              | intros tgt rho space; exact (kl_mixed_zero_of_equal_dists user tgt rho Z space bases)].
+  intros user Z bases Hne; split; [intros tgt psi; exact (kl_pure_zero_of_equal_dists_g user tgt psi Z bases Hne)
+                              | intros tgt rho space; exact (kl_mixed_zero_of_equal_dists_g user tgt rho Z space bases Hne)].
 Qed.
 Print Assumptions C10_kl_zero_of_equal_dists.
 
@@ -170,39 +203,45 @@ Print Assumptions C10_kl_self_zero_none.
 (* ---------------------------------------------------------------- 3. NLL *)
 (* any grouping: any list of (basis, rows) groups whose flattening is a permutation of the batch *)
 Theorem C10_nll_is_mean_neg_log_born : forall user st pr Z groups samples,
+  samples <> [] -> 0 < Z ->
   Permutation (flatten_groups groups) samples ->
   (forall bs, In bs samples -> sample_ok user st pr Z bs) ->
   fst (nll_groups ROps user st pr Z groups (length samples)) = mean_neg_log_born user st Z samples.
-Proof. exact nll_groups_is_mean_neg_log_born. Qed.
+Proof. exact nll_groups_is_mean_neg_log_born_g. Qed.
 Print Assumptions C10_nll_is_mean_neg_log_born.
 
 (* the code's grouping (one group per unique basis row, in any order of the unique rows) *)
 Theorem C10_nll_bases_is_mean_neg_log_born : forall user st pr Z ub samples,
+  samples <> [] -> 0 < Z ->
   (forall bs, In bs samples -> count_basis ub (fst bs) = 1%nat) ->
   (forall bs, In bs samples -> sample_ok user st pr Z bs) ->
   fst (nll_bases ROps user st pr Z ub samples) = mean_neg_log_born user st Z samples.
-Proof. exact nll_bases_is_mean_neg_log_born. Qed.
+Proof. exact nll_bases_is_mean_neg_log_born_g. Qed.
 Print Assumptions C10_nll_bases_is_mean_neg_log_born.
 
 Theorem C10_nll_bases_auto_is_mean_neg_log_born : forall user st pr Z samples,
+  samples <> [] -> 0 < Z ->
   (forall bs, In bs samples -> sample_ok user st pr Z bs) ->
   fst (nll_bases_auto ROps user st pr Z samples) = mean_neg_log_born user st Z samples.
-Proof. exact nll_bases_auto_is_mean_neg_log_born. Qed.
+Proof. exact nll_bases_auto_is_mean_neg_log_born_g. Qed.
 Print Assumptions C10_nll_bases_auto_is_mean_neg_log_born.
 
 (* all-Z rows: the rotated Born probability is the computational-basis probability *)
 Theorem C10_born_allZ : forall user st Z b s,
-  all_Z b = true -> length b = length s -> born user st Z b s = diag_prob st s / Z.
-Proof. exact born_allZ. Qed.
+  0 < Z -> all_Z b = true -> length b = length s -> born user st Z b s = diag_prob st s / Z.
+Proof. exact born_allZ_g. Qed.
 Print Assumptions C10_born_allZ.
 
 Theorem C10_nll_plain_is_mean_neg_log : forall pr Z samples,
+  samples <> [] -> 0 < Z ->
   (forall s, In s samples -> in_range (pr s / Z)) ->
   fst (nll_plain ROps pr Z samples) = - (sum ROps (map (fun s => ln (pr s / Z)) samples)) / INR (length samples).
-Proof. exact nll_plain_is_mean_neg_log. Qed.
+Proof. exact nll_plain_is_mean_neg_log_g. Qed.
 Print Assumptions C10_nll_plain_is_mean_neg_log.
 
 (* ---------------------------------------------------------------- 4. result kinds *)
+(* definitional: restates the model (every path of Metrics.v is tagged PlainNumber by construction; the clause
+   "returns a plain real number" is established by the check's type test on the implementation, not by this) *)
 Theorem C10_metrics_return_plain_numbers : forall (T : Type) (O : NumOps T),
   (forall t psi Z, snd (fidelity_pure O t psi Z) = PlainNumber) /\
   (forall eig t rho Z, snd (fidelity_mixed O eig t rho Z) = PlainNumber) /\
@@ -218,6 +257,7 @@ Proof. exact metrics_return_plain_numbers. Qed.
 Print Assumptions C10_metrics_return_plain_numbers.
 
 (* ---------------------------------------------------------------- 5. fidelity of density matrices (partial) *)
+(* definitional: restates the model (unfolds fidelity_mixed); the matrix-entry theorem after it is not *)
 Theorem C10_fidelity_mixed_partial : forall (eig : list (list (R * R)) -> list (R * R)) target rho Z,
   let M := cmatmul ROps target (map (map (rdiv Z)) rho) in
   let S := sum ROps (map (fun l => sqrt (Rabs (fst l))) (eig M)) in
@@ -294,3 +334,9 @@ Theorem C10_default_bases_are_ok : forall user n (b : list letter),
   (length b = n -> Forall (fun a => match a with LU _ => False | _ => True end) b -> basis_ok user n b).
 Proof. exact (fun user n b => conj (iff_refl _) (Links.L4.default_basis_ok user n b)). Qed.
 Print Assumptions C10_default_bases_are_ok.
+
+Theorem C10_zero_extended_hypotheses_satisfiable :
+  let T := [/ 2; 0; 0; / 2] in let Q := [/ 4; / 4; / 4; / 4] in
+  dists_ok0 T Q /\ sum ROps T = 1 /\ sum ROps Q = 1 /\ ~ dists_ok T Q.
+Proof. exact kl_hyps0_satisfiable. Qed.
+Print Assumptions C10_zero_extended_hypotheses_satisfiable.
